@@ -252,7 +252,17 @@ bufferevent_get_rlim_max_(struct bufferevent_private *bev, int is_write)
 		struct bufferevent_rate_limit_group *g =
 		    bev->rate_limiting->group;
 		ev_ssize_t share;
+		struct timeval now;
+		unsigned tick;
+		event_base_gettimeofday_cached(bev->bev.ev_base, &now);
 		LOCK_GROUP(g);
+		/* Bring the group's bucket up to date first, as for our own
+		 * bucket above: otherwise what it held before a late refill
+		 * and the refill itself can both be spent in the same tick. */
+		tick = ev_token_bucket_get_tick_(&now, &g->rate_limit_cfg);
+		if (tick != g->rate_limit.last_updated)
+			ev_token_bucket_update_(&g->rate_limit,
+			    &g->rate_limit_cfg, tick);
 		if (GROUP_SUSPENDED(g)) {
 			/* We can get here if we failed to lock this
 			 * particular bufferevent while suspending the whole
